@@ -6,6 +6,7 @@ int main(int argc, char **argv)
     if (argc < 2) return 3;
     std::string obl = argv[1];
     Args a = parse_args(argc, argv);
+    if (obl.find(".MIntPoly.") != std::string::npos) return mpoly_search(obl);
     if (is_composite_obligation(argv[1])) return composite_search(argv[1], false);
     if (obl.find("hash_combine") != std::string::npos) return 0;   // function-ness cannot fail natively on one run
     RCP<const Basic> x = slot(a, "A", "ka");
